@@ -439,11 +439,11 @@ package main
 //@ global-invariant compact-table: compactHdrNames != nil && (forall k string :: has(compactHdrNames.compactHeaders, k) == isCompactKey(k)) && (forall k string :: isCompactKey(k) ==> compactHdrNames.compactHeaders[k] == compactOf(k))
 
 //@ func init@message.go
-//@   props C17
+//@   props C17 C16
 //@   ensures compactHdrNames != nil && (forall k string :: has(compactHdrNames.compactHeaders, k) == isCompactKey(k)) && (forall k string :: isCompactKey(k) ==> compactHdrNames.compactHeaders[k] == compactOf(k))
 
 //@ func (*Message).isSameHeader
-//@   props C17 C01 C02 C06 C13
+//@   props C17 C01 C02 C06 C13 C16
 //@   uses hdrcanon
 //@   assumes compact-table
 //@   modifies nothing
@@ -1344,7 +1344,7 @@ package main
 //@   ensures forall k string :: has(SupportedProtocol, k) == (k == "udp" || k == "tcp")
 
 //@ func (*ClientTransportMgr).getFullAddr
-//@   props C12
+//@   props C12 C02
 //@   holds c
 //@   uses tkeydef
 //@   modifies nothing
